@@ -73,6 +73,7 @@ def run(chk, prog):
             ("vfps::DynamicRFKickMap", "vfps::RFKickMap", "DynamicRFKickMap", "RFKickMap")]
     A.require(len(news) == 4, "main: expected 4 constructions of RF kick maps, found %d" % len(news))
     lin_guard = {}
+    built = {}
     byid, parent = A.index(mainf)
     for x in news:
         ce = A.strip(x.get("init"), casts=False)
@@ -96,7 +97,23 @@ def run(chk, prog):
         chk.check((model == "linear") == lin, "R1", site, "main: the %s constructor of %s is used on the linearRF=%s branch" % (model, x["alloc_type"], lin),
                   "main:new %s:model:%s:linearRF:%s" % (x["alloc_type"], model, lin))
         n1 += 1
-    chk.floor("R1-arguments", n1, 40)
+        built.setdefault(model, {})["dynamic" if "Dynamic" in x["alloc_type"] else "static"] = (x, ce)
+    # sibling agreement: with zero modulation the dynamic map must be the static one, so on each branch of the linearRF switch
+    # main has to hand both constructions the same value for every parameter they share (a name-role rule cannot see V_RF passed
+    # where both constructors call the parameter V_RF but the static sibling receives V_eff)
+    for model, pair in sorted(built.items()):
+        A.require(set(pair) == {"static", "dynamic"}, "main: static/dynamic construction of the %s RF map not found" % model)
+        (xs, cs), (xd, cd) = pair["static"], pair["dynamic"]
+        argmap = lambda c_: {p_: A.show(A.strip(a_)).replace(" ", "") for p_, a_ in zip(c_.get("callee_params", []), c_.get("args", []))}
+        ms, md = argmap(cs), argmap(cd)
+        # the dynamic constructors take the grid sizes explicitly and call the amplitude noise differently; shared = same name
+        for pn in sorted(set(ms) & set(md)):
+            chk.check(ms[pn] == md[pn], "R1", A.loc(mainf, xd), "main: the %s dynamic map gets the same '%s' as the static map (%s vs %s)" % (model, pn, md[pn], ms[pn]),
+                      "main:siblings:%s:%s:%s:%s" % (model, pn, md[pn], ms[pn]))
+            n1 += 1
+        chk.check(len(set(ms) & set(md)) >= (6 if model == "linear" else 8), "R1", A.loc(mainf, xd), "main: %s static and dynamic constructors share their physical parameters (%s)"
+                  % (model, sorted(set(ms) & set(md))), "main:siblings:%s:shared" % model)
+    chk.floor("R1-arguments", n1, 55)
 
     # ---- R2 ----------------------------------------------------------------------------------
     rec0 = prog.record("vfps::DynamicRFKickMap")
